@@ -18,17 +18,13 @@ variants = {
           '{ let r = file.read_line(&mut line).map(|_| ()).or_else(|_| Ok::<(), std::io::Error>(())); match r { Ok(_) => Ok(Rc::new(Object::Str(line))), Err(e) => Ok(Rc::new(Object::Err(ErrorObj::IO(e)))) } }'),
 }
 src = open(FM.repo_root()+"/src/builtins/functions.rs").read()
-mod = importlib.import_module("rules.c22")
 for name,(old,new) in variants.items():
     assert old in src, name
     tree = mutants.scratch_copy(FM.repo_root())
     open(tree+"/src/builtins/functions.rs","w").write(src.replace(old,new,1))
     try:
-        F = FM.load("default", repo=tree)
+        bad = mutants.run_on("C22", tree)
     except Exception as e:
         print(name, "does not build:", str(e)[:200]); shutil.rmtree(tree, ignore_errors=True); continue
     shutil.rmtree(tree, ignore_errors=True)
-    R = core.Report("C22")
-    mod.run(F, R, "quick")
-    bad=[o for o in R.obls if not o.ok]
-    print(name, "->", len(bad), [ (o.rule, o.detail[:70]) for o in bad[:2]])
+    print(name, "->", len(bad), [(r_, d_[:70]) for r_, k_, d_ in bad[:2]])
